@@ -40,7 +40,8 @@ ASSUMPTIONS = [
     "started, so on the unchanged code the verdict is 'expired'/401 whenever the verification runs (the wall clock is "
     "assumed not to step backwards); the driver repeats an attempt that did not finish within that second only so that "
     "a changed comparison is observed inside it",
-    "|TTL| < 10^15 ns (int64(d.Seconds()) is then exact truncation)",
+    "|TTL| < 2*10^18 ns (int64(d.Seconds()) is exact truncation below about 10^15 ns; the two larger TTLs used for PUT, "
+    "15 and 60 years, are whole seconds, for which it is exact as well)",
     "keepstore driver: Authorization header is 'Bearer <token>' with a whitespace-free token; GET paths contain no '/'; "
     "no RemoteClusters configured (remote proxy answers 401 without token, else 400)",
 ]
@@ -654,7 +655,8 @@ def gen_sign(rng, tier):
     return cases
 
 
-OFFSETS = [-86400 * 365 * 5, -86400, -3600, -60, -5, 0, 0, 0, 60, 3600, 86400 * 14, 86400 * 365 * 5]
+OFFSETS = [-86400 * 365 * 5, -86400, -3600, -60, -5, 0, 0, 0, 60, 3600, 86400 * 14, 86400 * 365 * 5,
+           86400 * 365 * 15, 86400 * 365 * 60]      # the last two reach past 2^31 (2038) but stay below 2^32 (2106)
 
 
 def gen_near(rng, tier):
@@ -778,7 +780,7 @@ def gen_ks(rng, tier):
         while any(c in tok for c in WS + b"\x0b\x00"):
             tok = g_token(rng)
         tok2 = rng.choice([tok + b"x", b"", b"other"] + [t2 for t2 in token_variants(tok, rng) if not any(c in t2 for c in WS + b"\x0b\x00")])
-        ttl = rng.choice([60, 3600, 1209600, 90]) * 10 ** 9 + rng.choice([0, 0, 500000000])
+        ttl = rng.choice([60, 3600, 1209600, 90, 86400 * 365 * 15, 86400 * 365 * 60]) * 10 ** 9 + rng.choice([0, 0, 500000000])
         if rng.random() < 0.2:
             ttl = -rng.choice([5, 3600]) * 10 ** 9
         if rng.random() < 0.1:
